@@ -1367,10 +1367,46 @@ func c13RecreateInsideHandler(c *vf.Case, ioc *sonic.IO) {
 // and still deliver its completion.
 func c13GC(c *vf.Case, ioc *sonic.IO) {
 	r := c.Rng
-	kinds := []string{"conn-read", "packet-conn-read", "udp-peer-read", "listener-accept", "timer", "conn-write", "conn-read-after-its-write-completed", "adapter-read-after-its-write-completed"}
-	for _, kind := range kinds {
+	// "+high-descriptor": the process holds some 4100 other descriptors while the object is created, so its number lies
+	// above the range an IO context keeps in a fixed table (only kinds whose descriptor does not pass through
+	// sonic's connect, which selects on an FdSet)
+	const hi = "+high-descriptor"
+	kinds := []string{"conn-read", "packet-conn-read", "udp-peer-read", "listener-accept", "timer", "conn-write", "conn-read-after-its-write-completed", "adapter-read-after-its-write-completed",
+		"adapter-read-after-its-write-completed" + hi, "packet-conn-read" + hi, "timer" + hi}
+	var filler []int
+	dropFiller := func() {
+		for _, fd := range filler {
+			syscall.Close(fd)
+		}
+		filler = nil
+	}
+	defer dropFiller()
+	for _, kk := range kinds {
 		if c.Failed() {
 			return
+		}
+		kind := strings.TrimSuffix(kk, hi)
+		if kk != kind {
+			first, err := syscall.Open("/dev/null", syscall.O_RDONLY|syscall.O_CLOEXEC, 0)
+			if err != nil {
+				c.Count("high_descriptor_probes_skipped", 1)
+				continue
+			}
+			filler = append(filler, first)
+			for top := first; top < 4100; {
+				fd, _, e := syscall.Syscall(syscall.SYS_FCNTL, uintptr(first), syscall.F_DUPFD_CLOEXEC, 0)
+				if e != 0 {
+					break
+				}
+				filler = append(filler, int(fd))
+				top = int(fd)
+			}
+			if filler[len(filler)-1] < 4100 {
+				dropFiller()
+				c.Count("high_descriptor_probes_skipped", 1)
+				continue
+			}
+			c.Count("gc_probes_on_descriptors_above_4096", 1)
 		}
 		finalized := new(int32)
 		completed := 0
@@ -1569,7 +1605,11 @@ func c13GC(c *vf.Case, ioc *sonic.IO) {
 			syscall.Close(peerFd)
 		}
 		c.Count("gc_probes_with_completion_delivered", 1)
-		c.Cover("gc_probe_kinds", kind)
+		c.Cover("gc_probe_kinds", kk)
+		if kk != kind && vfd >= 0 {
+			c.Max("highest_descriptor_of_a_gc_probe", int64(vfd))
+		}
+		dropFiller()
 	}
 	runtime.GC() // let the now-unreferenced objects go
 }
@@ -1684,7 +1724,7 @@ func init() {
 		ID:        "C13",
 		Level:     "fault_enumeration",
 		Technique: "fault enumeration under runtime monitors: /proc/self/fd census before/after every failing constructor (refused, bind conflict, failing option, bad path, bad/truncated handshake responses, descriptor-table exhaustion at the k-th allocation for every k via a packed table + RLIMIT_NOFILE), double-Close matrix with descriptor reuse checked by census, GC probes with a finalizer sentinel captured by the pending callback",
-		Rule: "an adapter and the net.Conn it wraps are closed in both orders with another object created in between; a connection re-created (same number) with a parked read inside the completion handler of the one it replaces must survive the collector; " +
+		Rule: "GC probes are repeated for an adapter (read after its write completed), a packet conn and a timer whose descriptor number lies above 4096 (the process holds 4100 other descriptors while the object is created); an adapter and the net.Conn it wraps are closed in both orders with another object created in between; a connection re-created (same number) with a parked read inside the completion handler of the one it replaces must survive the collector; " +
 			"the close-twice matrix includes an AsyncAdapter over a net.Conn; failing constructors include a UDP Dial whose connect(2) fails; timers that close themselves inside their own callback (one-shot and repeating) with a second timer created before the callback returns, then closed again; GC probes also for a timer with a refused second schedule and for a conn / adapter whose read stays in flight after its write completed; " +
 			"cases rotate over five probe families: (0) for each of {NewIO, NewTimer, Listen, NewPacketConn, NewUDPPeer, Open, NewMirroredBuffer}: pack the descriptor table and lower RLIMIT_NOFILE so that only k more descriptors can be allocated, for k = 0,1,2,... until the constructor succeeds; (1) 13 failing constructors/connects (refused, unroutable with timeout, bind to foreign address, bind conflict, failing option, bad address, nonexistent path, invalid size) x 30 repetitions; (2) websocket Handshake and AsyncHandshake against a raw server that closes after 0 / k bytes, answers 200, a wrong accept key, garbage, or is not there x 8 repetitions; (3) the 7x7 matrix 'close A, create B, close A again' over {conn, listener, packet conn, UDP peer, timer, file, IO}; (4) GC probes for {conn read, conn write, packet conn read, UDP peer read, listener accept, timer} with references dropped, 4 collections and heap churn, the same with the operation re-issued from inside its own completion handler, and the teardown orders {object then IO, IO then object, object twice then IO} for {conn, listener, packet conn, UDP peer, timer} with and without a deferred operation, each followed by a census, and each of {conn, listener, packet conn, UDP peer, file, timer} created while descriptor 0 is free (it receives that number) and closed once and twice; the census is always taken without running the GC; " +
 			"every case is non-trivial; distinct = (family, case index)",
